@@ -771,13 +771,15 @@ func c04concurrentPatches(env *core.Env) {
 		plans[t] = &sent{off: off, data: data}
 	}
 	trickle := c.Bool("trickling-bodies", 1, 2)
+	trs := make([]*simnet.Transport, ntasks)
 	sched := env.Sched
 	for t := 0; t < ntasks; t++ {
 		t := t
 		sched.Spawn(fmt.Sprintf("client%d", t), func() {
 			// (a request body that trickles in byte by byte reaches the backend writer
 			// as many small writes, between which the other requests' handlers run)
-			tr := &simnet.Transport{Env: env, Handler: handler, OneByteReads: trickle}
+			tr := &simnet.Transport{Env: env, Handler: handler, OneByteReads: trickle, Record: true}
+			trs[t] = tr
 			cl, err := newClient(tr, 0)
 			if err != nil {
 				core.Harnessf("%v", err)
@@ -838,6 +840,22 @@ func c04concurrentPatches(env *core.Env) {
 			}
 		}
 		_ = accepted
+		// What an accepted PATCH says the upload holds is what it held when that
+		// request's data had gone in, not what another request added since.
+		for t, p := range plans {
+			if p.err != nil || trs[t] == nil {
+				continue
+			}
+			for _, e := range trs[t].Log {
+				if e.Method != "PATCH" || e.Status != 202 {
+					continue
+				}
+				want := fmt.Sprintf("0-%d", p.off+int64(len(p.data))-1)
+				if got := e.RespHeader.Get("Range"); got != want {
+					env.Failf("C04/concurrent/range-of-another-request", "client %d's PATCH of %d bytes for offset %d was accepted with Range: %s, want %s (what the upload held once its own data was in)", t, len(p.data), p.off, got, want)
+				}
+			}
+		}
 		w, err := mem.PushBlobChunkedResume(ctx, repo, rawID, -1, 0)
 		if err != nil {
 			core.Harnessf("%v", err)
